@@ -162,6 +162,15 @@ static void case_narrow_1d(Rng& rng, uint64_t index)
 	double a   = (index % 12 == 0) ? 1.0 : rng.sign() * rng.loguni(1e-2, 1e3);
 	double rel = (index % 12 == 0) ? 1e-11 : rng.loguni(1e-13, 1e-3);
 	double b   = a + std::fabs(a) * rel;
+	// limits one to four representable numbers apart (seeded change C13-r6m3 returned 0 when no double lies strictly between the limits):
+	// the integral is f(a)(b-a) to rounding and every method has to deliver it
+	if(index % 12 == 1 || index % 12 == 7)
+	{
+		b = a;
+		for(int u = 0, n = 1 + (int) ((index / 12) % 4); u < n; u++)
+			b = std::nextafter(b, INFINITY);
+		rel = (b - a) / std::fabs(a);
+	}
 	if(!(b > a))
 		return;
 	double k = rng.uni(-0.5, 0.5), om = rng.uni(0.1, 2), ph = rng.uni(0, 6);
